@@ -73,7 +73,8 @@ Definition tokens (v : cell) : list str :=
 Definition mv_name (f t : str) : str := S_MULTIEX ++ f ++ DASH :: t.
 Definition mv_column (vec : list cell) (t : str) : list cell :=
   map (fun v => if memb t (tokens v) then ONE else EMPTY) vec.
-(* the distinct tokens of a column come out of a Python set: [perm] is its (unspecified) iteration order *)
+(* the distinct tokens of a column come out of a Python set: [perm] is the order in which they are emitted
+   (set iteration order originally, sorted() since repo commit b8c228d); the property does not fix it *)
 Definition mv_tokens (perm : list str -> list str) (missing : list str) (vec : list cell) : list str :=
   filter (fun t => negb (memb t missing)) (perm (uniq (flat_map tokens vec))).
 Definition mv_feature (perm : str -> list str -> list str) (df : frame) (missing : list str) (f : str) : list column :=
